@@ -44,6 +44,14 @@ def run(prog, tier):
                "decide that a gadget CNF computes the named Boolean function on all assignments.")
     R.trust("the OR of CNFs distributes into the cartesian product of their clauses",
             "VariablesManager.new_block(k) allocates k consecutive identifiers, new_variable one (C10 ALLOC-GUARD)")
+    T = Result(P, "")
+    shape_rules(T, prog)
+    check_composition(R, prog, T)
+    check_cli_names(R, prog)
+    return R
+
+
+def shape_rules(R, prog):
     table = builder_table(prog)
     for name in sorted(DECLARED):
         fi = prog.func(MOD, name)
@@ -56,8 +64,42 @@ def run(prog, tier):
     check_ycard(R, prog)
     check_apply(R, prog)
     check_wrappers(R, prog)
-    check_cli_names(R, prog)
-    return R
+
+
+def check_composition(R, prog, T):
+    """COMPOSITION: every transformation, folded on small inputs over a stand-in formula class with semantic builders, composes the
+    input with its gadget (truth-table comparison, sa/props/_c05_fold.py).  A shape finding inside a transformation whose composition
+    was confirmed is recorded as undecided shape, not reported; a refuted composition is a finding of its own."""
+    from . import _c05_fold as cf
+    verdicts = {}
+    for name in cf.NAMES:
+        fi = prog.func(MOD, name)
+        v = cf.verdict(prog, name)
+        verdicts[name] = v
+        if v[0] is True:
+            R.ok("COMPOSITION", "%s: %s" % (name, v[1]), fi.key)
+        elif v[0] is False:
+            R.bad(F("COMPOSITION", fi, "%s composes F with its gadget" % name, v[1]))
+        else:
+            R.unknown("COMPOSITION", name, fi.key, v[1])
+    R.floor("COMPOSITION", sum(1 for v in verdicts.values() if v[0] is not None), 12)
+    for o in T.obligations:
+        if o["status"] == "discharged":
+            R.ok(o["rule"], o["instance"], o["where"], nontrivial=o["nontrivial"])
+    for u in T.unproven:
+        R.unknown(u["rule"], u["instance"], u["where"], u["why"])
+    R.floors.extend(T.floors)
+    for t in T.trusted:
+        R.trust(t)
+    everything = all(v[0] is True for v in verdicts.values())
+    for f in T.findings:
+        top = (f.function or "").split(".")[0]
+        confirmed = verdicts.get(top, (None,))[0] is True or (top == "apply_substitution" and everything)
+        if confirmed:
+            R.unknown(f.rule, f.construct, "%s:%s %s" % (f.file, f.line, f.function),
+                      "shape not recognised (%s); the meaning of the fragment was confirmed by folding" % f.message[:120])
+        else:
+            R.bad(f)
 
 
 # ------------------------------------------------------------------ allocation
